@@ -424,21 +424,25 @@ def Relay.readable (s : Relay) (got0 : Bytes) (res : SR) : Relay × Res :=
     terminates: `spin`. -/
 def Relay.writeLoop (hs : Nat) (s : Relay) : List WRes → Relay × Res × Bytes
   | [] => if s.buf.data = [] then (s, .spin, []) else (s, .cont, [])
-  | .wouldBlock :: _ =>
-    -- any `Err` (WouldBlock included) resets both readinesses and leaves the loop
-    ({ s with fInterestR := false, fEventR := false, bInterestW := false }, .cont, [])
-  | .err :: _ =>
-    ({ s with fInterestR := false, fEventR := false, bInterestW := false }, .cont, [])
-  | .ok n :: rest =>
+  | w :: rest =>
+    -- an empty buffer: `write(&[])` answers `Ok(0)` whatever the state of the socket
+    -- (full send buffer included), the cursor cannot move, the loop never ends
     if s.buf.data = [] then (s, .spin, [])
     else
-      let m := min n s.buf.data.length
-      let out := s.buf.data.take m
-      let s' := { s with cursor := s.cursor + m, buf := s.buf.consume m }
-      if s'.cursor ≥ hs then (s', .upgrade, out)
-      else
-        let (s'', r, out') := Relay.writeLoop hs s' rest
-        (s'', r, out ++ out')
+      match w with
+      | .wouldBlock =>
+        -- any `Err` (WouldBlock included) resets both readinesses and leaves the loop
+        ({ s with fInterestR := false, fEventR := false, bInterestW := false }, .cont, [])
+      | .err =>
+        ({ s with fInterestR := false, fEventR := false, bInterestW := false }, .cont, [])
+      | .ok n =>
+        let m := min n s.buf.data.length
+        let out := s.buf.data.take m
+        let s' := { s with cursor := s.cursor + m, buf := s.buf.consume m }
+        if s'.cursor ≥ hs then (s', .upgrade, out)
+        else
+          let (s'', r, out') := Relay.writeLoop hs s' rest
+          (s'', r, out ++ out')
 
 def Relay.backWritable (s : Relay) (ws : List WRes) : Relay × Res × Bytes :=
   match s.headerSize with
